@@ -6,6 +6,8 @@
 //
 //	replay-conv <vectors> <result>                 G: TLC-enumerated net.IP / IPNet / net.Addr shapes
 //	replay-sort <universe.json> <vectors> <result> G: every short sequence with the order TLC expects
+//	stress-conv <vectors> <result> <goroutines> <rounds>
+//	                                               the same units from many goroutines at once (-race build)
 //	record <trace> <result> <n>                    T: seeded random values and observed results for TLC
 package c12
 
@@ -18,6 +20,7 @@ import (
 	"slices"
 	"strconv"
 	"strings"
+	"sync"
 
 	"github.com/AdguardTeam/golibs/netutil"
 
@@ -27,6 +30,7 @@ import (
 func init() {
 	vh.Register("c12", "replay-conv", replayConv)
 	vh.Register("c12", "replay-sort", replaySort)
+	vh.Register("c12", "stress-conv", stressConv)
 	vh.Register("c12", "record", record)
 }
 
@@ -166,10 +170,116 @@ func sameAPRes(a, b apRes) bool {
 
 var fams = map[string]netutil.AddrFamily{"v4": netutil.AddrFamilyIPv4, "v6": netutil.AddrFamilyIPv6}
 
-// callIPToAddr calls IPToAddr (fam "v4"/"v6") or IPToAddrNoMapped (fam "n")
-// on a private copy of ip.
-func callIPToAddr(ip []byte, fam string) (r addrRes, panicked any) {
-	arg := net.IP(slices.Clone(ip))
+// stdGlobal is one of the standard library's exported net.IP variables.
+type stdGlobal struct {
+	name string
+	ip   *net.IP
+}
+
+// stdGlobals are keyed like StdGlobals in AddrConv.tla.
+var stdGlobals = []stdGlobal{
+	{"IPv4zero", &net.IPv4zero},
+	{"IPv4bcast", &net.IPv4bcast},
+	{"IPv4allsys", &net.IPv4allsys},
+	{"IPv4allrouter", &net.IPv4allrouter},
+	{"IPv6zero", &net.IPv6zero},
+	{"IPv6unspecified", &net.IPv6unspecified},
+	{"IPv6loopback", &net.IPv6loopback},
+	{"IPv6interfacelocalallnodes", &net.IPv6interfacelocalallnodes},
+	{"IPv6linklocalallnodes", &net.IPv6linklocalallnodes},
+	{"IPv6linklocalallrouters", &net.IPv6linklocalallrouters},
+}
+
+func findGlobal(name string) *stdGlobal {
+	for i := range stdGlobals {
+		if stdGlobals[i].name == name {
+			return &stdGlobals[i]
+		}
+	}
+	return nil
+}
+
+// globalWatch remembers what the std globals held when the harness started
+// and reports every later change.
+type globalWatch struct {
+	snap map[string][]byte
+	last map[string][]byte
+}
+
+func newGlobalWatch() *globalWatch {
+	w := &globalWatch{snap: map[string][]byte{}, last: map[string][]byte{}}
+	for _, g := range stdGlobals {
+		w.snap[g.name] = slices.Clone([]byte(*g.ip))
+		w.last[g.name] = slices.Clone([]byte(*g.ip))
+	}
+	return w
+}
+
+// check reports every global that changed since the previous check; after is
+// the call that ran in between.
+func (w *globalWatch) check(res *vh.Result, after, tag string) (changed bool) {
+	for _, g := range stdGlobals {
+		cur := []byte(*g.ip)
+		if slices.Equal(cur, w.last[g.name]) {
+			continue
+		}
+		changed = true
+		res.Mismatch(after+" modified net."+g.name,
+			fmt.Sprintf("the standard library's global net.%s was %v before the call and is %v after it: "+
+				"a conversion must not write to memory it does not own%s", g.name, net.IP(w.last[g.name]), net.IP(cur), tag),
+			map[string]any{"global": g.name, "before": ints(w.last[g.name]), "after": ints(cur), "at_start": ints(w.snap[g.name])})
+		w.last[g.name] = slices.Clone(cur)
+	}
+	return changed
+}
+
+// restore puts the start-up bytes back, so that a later phase starts clean.
+func (w *globalWatch) restore() {
+	for _, g := range stdGlobals {
+		if len(*g.ip) == len(w.snap[g.name]) {
+			copy(*g.ip, w.snap[g.name])
+		} else {
+			*g.ip = slices.Clone(w.snap[g.name])
+		}
+		w.last[g.name] = slices.Clone(w.snap[g.name])
+	}
+}
+
+func (w *globalWatch) values() map[string][]int {
+	out := map[string][]int{}
+	for _, g := range stdGlobals {
+		out[g.name] = ints(*g.ip)
+	}
+	return out
+}
+
+// input is a net.IP handed to the code under test: a private copy of b, or,
+// when global is set, that std global itself (b is its start-up value).
+type input struct {
+	b      []byte
+	global *stdGlobal
+}
+
+func (in input) arg() net.IP {
+	if in.global != nil {
+		return *in.global.ip
+	}
+	return slices.Clone(in.b)
+}
+
+func (in input) String() string {
+	if in.global != nil {
+		return "net." + in.global.name
+	}
+	return goBytes("net.IP", in.b)
+}
+
+func private(b []byte) input { return input{b: b} }
+
+// callIPToAddr calls IPToAddr (fam "v4"/"v6") or IPToAddrNoMapped (fam "n").
+// changed is set when the argument's bytes differ after the call.
+func callIPToAddr(in input, fam string) (r addrRes, panicked any, changed bool) {
+	arg := in.arg()
 	pv, p := vh.Try(func() {
 		if fam == "n" {
 			r = obsAddr(netutil.IPToAddrNoMapped(arg))
@@ -177,18 +287,21 @@ func callIPToAddr(ip []byte, fam string) (r addrRes, panicked any) {
 			r = obsAddr(netutil.IPToAddr(arg, fams[fam]))
 		}
 	})
+	changed = in.global == nil && !slices.Equal([]byte(arg), in.b)
 	if p {
-		return r, pv
+		return r, pv, changed
 	}
-	return r, nil
+	return r, nil, changed
 }
 
 // callIPNetToPrefix calls IPNetToPrefix / IPNetToPrefixNoMapped on a private
-// subnet value (the NoMapped variant may rewrite subnet.IP) and returns the
-// prefix and a pristine copy of the subnet for membership probing.
-func callIPNetToPrefix(ip, mask []byte, fam string) (r prefixRes, p netip.Prefix, ref *net.IPNet, panicked any) {
-	arg := &net.IPNet{IP: slices.Clone(ip), Mask: slices.Clone(mask)}
-	ref = &net.IPNet{IP: slices.Clone(ip), Mask: slices.Clone(mask)}
+// subnet value (the NoMapped variant may rewrite the subnet.IP field: the
+// bytes it pointed to must still be intact) and returns the prefix and a
+// pristine copy of the subnet for membership probing.
+func callIPNetToPrefix(in input, mask []byte, fam string) (r prefixRes, p netip.Prefix, ref *net.IPNet, panicked any, changed bool) {
+	argIP, argMask := in.arg(), net.IPMask(slices.Clone(mask))
+	arg := &net.IPNet{IP: argIP, Mask: argMask}
+	ref = &net.IPNet{IP: slices.Clone(in.b), Mask: slices.Clone(mask)}
 	pv, pn := vh.Try(func() {
 		var err error
 		if fam == "n" {
@@ -198,10 +311,12 @@ func callIPNetToPrefix(ip, mask []byte, fam string) (r prefixRes, p netip.Prefix
 		}
 		r = obsPrefix(p, err)
 	})
+	changed = (in.global == nil && !slices.Equal([]byte(argIP), in.b)) ||
+		!slices.Equal([]byte(argMask), mask) || !slices.Equal([]byte(arg.Mask), mask)
 	if pn {
-		return r, p, ref, pv
+		return r, p, ref, pv, changed
 	}
-	return r, p, ref, nil
+	return r, p, ref, nil, changed
 }
 
 // customAddr is a net.Addr without an AddrPort method.
@@ -225,8 +340,7 @@ func (c apAddr) AddrPort() netip.AddrPort {
 	return netip.AddrPortFrom(na.WithZone(c.zone), uint16(c.port))
 }
 
-func mkNetAddr(kind string, ip []byte, zone string, port int) (net.Addr, error) {
-	ipc := net.IP(slices.Clone(ip))
+func mkNetAddr(kind string, ipc net.IP, zone string, port int) (net.Addr, error) {
 	switch kind {
 	case "tcp":
 		return &net.TCPAddr{IP: ipc, Port: port, Zone: zone}, nil
@@ -246,16 +360,18 @@ func mkNetAddr(kind string, ip []byte, zone string, port int) (net.Addr, error) 
 	return nil, fmt.Errorf("unknown net.Addr kind %q", kind)
 }
 
-func callNetAddr(kind string, ip []byte, zone string, port int) (r apRes, panicked any, err error) {
-	a, err := mkNetAddr(kind, ip, zone, port)
+func callNetAddr(kind string, in input, zone string, port int) (r apRes, panicked any, changed bool, err error) {
+	arg := in.arg()
+	a, err := mkNetAddr(kind, arg, zone, port)
 	if err != nil {
-		return r, nil, err
+		return r, nil, false, err
 	}
 	pv, p := vh.Try(func() { r = obsAddrPort(netutil.NetAddrToAddrPort(a)) })
+	changed = in.global == nil && !slices.Equal([]byte(arg), in.b)
 	if p {
-		return r, pv, nil
+		return r, pv, changed, nil
 	}
-	return r, nil, nil
+	return r, nil, changed, nil
 }
 
 func famName(f string) string {
@@ -268,15 +384,15 @@ func famName(f string) string {
 	return ""
 }
 
-func keyIP(ip []byte, fam string) string {
+func keyIP(in input, fam string) string {
 	if fam == "n" {
-		return "IPToAddrNoMapped(" + goBytes("net.IP", ip) + ")"
+		return "IPToAddrNoMapped(" + in.String() + ")"
 	}
-	return "IPToAddr(" + goBytes("net.IP", ip) + ", " + famName(fam) + ")"
+	return "IPToAddr(" + in.String() + ", " + famName(fam) + ")"
 }
 
-func keyNet(ip, mask []byte, fam string) string {
-	sub := "&net.IPNet{IP:" + goBytes("net.IP", ip) + ", Mask:" + goBytes("net.IPMask", mask) + "}"
+func keyNet(in input, mask []byte, fam string) string {
+	sub := "&net.IPNet{IP:" + in.String() + ", Mask:" + goBytes("net.IPMask", mask) + "}"
 	if fam == "n" {
 		return "IPNetToPrefixNoMapped(" + sub + ")"
 	}
@@ -343,6 +459,8 @@ type convVec struct {
 	Kind string `json:"kind"`
 	Zone string `json:"zone"`
 	Port int    `json:"port"`
+	// Globals names the std-lib globals that hold exactly IP's bytes.
+	Globals []string `json:"globals"`
 
 	R4 addrRes `json:"r4"`
 	R6 addrRes `json:"r6"`
@@ -359,6 +477,201 @@ type convVec struct {
 	Must string `json:"must"`
 }
 
+var famList = [3]string{"v4", "v6", "n"}
+
+// unit is one vector with one choice of how its IP is passed: a private copy
+// (global == nil) or one of the std globals holding the same bytes.
+type unit struct {
+	v      *convVec
+	global *stdGlobal
+}
+
+func (u unit) in() input { return input{b: u.v.IP.bytes(), global: u.global} }
+
+// outcome is everything the calls of one unit returned.
+type outcome struct {
+	A       [3]addrRes
+	P       [3]prefixRes
+	AP      apRes
+	Panic   [3]any
+	Changed [3]bool
+	pfx     [3]netip.Prefix
+	ref     [3]*net.IPNet
+}
+
+// exec performs the calls of one unit; after (may be nil) runs after every
+// single call.  exec itself touches no harness state, so with a nil after it
+// can run in many goroutines.
+func exec(u unit, keepRefs bool, after func(i int)) (o outcome, err error) {
+	in := u.in()
+	if after == nil {
+		after = func(int) {}
+	}
+	switch u.v.T {
+	case "ip":
+		for i, fam := range famList {
+			o.A[i], o.Panic[i], o.Changed[i] = callIPToAddr(in, fam)
+			after(i)
+		}
+	case "net":
+		mask := u.v.Mask.bytes()
+		for i, fam := range famList {
+			var p netip.Prefix
+			var ref *net.IPNet
+			o.P[i], p, ref, o.Panic[i], o.Changed[i] = callIPNetToPrefix(in, mask, fam)
+			if keepRefs {
+				o.pfx[i], o.ref[i] = p, ref
+			}
+			after(i)
+		}
+	case "na":
+		o.AP, o.Panic[0], o.Changed[0], err = callNetAddr(u.v.Kind, in, u.v.Zone, u.v.Port)
+		after(0)
+	default:
+		err = fmt.Errorf("unknown vector type %q", u.v.T)
+	}
+	return o, err
+}
+
+func (u unit) key(i int) string {
+	switch u.v.T {
+	case "ip":
+		return keyIP(u.in(), famList[i])
+	case "net":
+		return keyNet(u.in(), u.v.Mask.bytes(), famList[i])
+	}
+	return fmt.Sprintf("NetAddrToAddrPort(%s{IP:%s, Zone:%q, Port:%d})", u.v.Kind, u.in(), u.v.Zone, u.v.Port)
+}
+
+func (u unit) ncalls() int {
+	if u.v.T == "na" {
+		return 1
+	}
+	return 3
+}
+
+type judgeStats struct{ calls, probes, compared int }
+
+// judge compares an outcome with what the specification requires.  tag says
+// in which phase the unit ran; probe enables the membership comparison.
+func judge(res *vh.Result, u unit, o *outcome, tag string, probe bool, st *judgeStats) error {
+	v := u.v
+	for i := 0; i < u.ncalls(); i++ {
+		st.calls++
+		key := u.key(i)
+		if o.Panic[i] != nil {
+			res.Mismatch(key, fmt.Sprintf("panic: %v%s", o.Panic[i], tag), v)
+			continue
+		}
+		if o.Changed[i] {
+			res.Mismatch(key+" modified its argument", "the bytes of the net.IP / net.IPMask passed in differ after the call"+tag, v)
+		}
+		switch v.T {
+		case "ip":
+			want := [3]addrRes{v.R4, v.R6, v.RN}[i]
+			if !sameAddrRes(o.A[i], want) {
+				res.Mismatch(key, fmt.Sprintf("returned %+v, the specification requires %+v%s", o.A[i], want, tag), v)
+			}
+		case "net":
+			want := [3]prefixRes{v.P4, v.P6, v.PN}[i]
+			cmp := [3]cmpFlags{v.C4, v.C6, v.CN}[i]
+			got := o.P[i]
+			switch {
+			case cmp.Must == "reject" && got.OK:
+				res.Mismatch(key, fmt.Sprintf("returned %+v without an error; the subnet must be rejected "+
+					"(mask nil, empty or not a contiguous run of ones, or IP not an address of the family)%s", got, tag), v)
+				continue
+			case cmp.Must == "accept" && !meetsPrefix(got, want):
+				res.Mismatch(key, fmt.Sprintf("returned %+v, the specification requires %+v (host bits free)%s", got, want, tag), v)
+				continue
+			case cmp.Must != "accept" && cmp.Must != "reject" && cmp.Must != "free":
+				return fmt.Errorf("bad demand %q", cmp.Must)
+			}
+			if !probe || cmp.Must != "accept" || !cmp.Cmp || o.ref[i] == nil {
+				continue
+			}
+			st.compared++
+			p, ref := o.pfx[i], o.ref[i]
+			for _, x := range boundaryProbes(p.Addr().AsSlice(), p.Bits()) {
+				if cmp.Skip4in6 && len(x) == 16 && netip.AddrFrom16([16]byte(x)).Is4In6() {
+					continue
+				}
+				st.probes++
+				ob := observeProbe(p, ref, x)
+				if ob.PC != ob.NC {
+					a, _ := netip.AddrFromSlice(x)
+					res.Mismatch(key, fmt.Sprintf("the prefix %v and the *net.IPNet disagree about %v: Prefix.Contains=%v IPNet.Contains=%v",
+						p, a, ob.PC, ob.NC), map[string]any{"vector": v, "probe": ob})
+					break
+				}
+			}
+		case "na":
+			got := o.AP
+			switch {
+			case v.Must == "accept" && !sameAPRes(got, v.AP):
+				res.Mismatch(key, fmt.Sprintf("returned %+v, the specification requires %+v%s", got, v.AP, tag), v)
+			case v.Must == "reject" && got.OK:
+				res.Mismatch(key, fmt.Sprintf("returned the valid %+v for something that is not an address%s", got, tag), v)
+			case v.Must == "free" && got.OK && v.Kind == "ip":
+				if a, ok := netip.AddrFromSlice(v.IP.bytes()); !ok || !slices.Equal(got.B, ints(a.Unmap().AsSlice())) {
+					res.Mismatch(key, fmt.Sprintf("returned %+v: the address was changed%s", got, tag), v)
+				}
+			case v.Must != "accept" && v.Must != "reject" && v.Must != "free":
+				return fmt.Errorf("bad demand %q", v.Must)
+			}
+		}
+	}
+	return nil
+}
+
+func sameOutcome(a, b *outcome) bool {
+	for i := 0; i < 3; i++ {
+		if !sameAddrRes(a.A[i], b.A[i]) || !samePrefixRes(a.P[i], b.P[i]) || (a.Panic[i] == nil) != (b.Panic[i] == nil) {
+			return false
+		}
+	}
+	return sameAPRes(a.AP, b.AP)
+}
+
+// loadUnits reads the vectors and expands them into units: every vector with
+// a private copy of its IP, and once more per std global holding those bytes
+// (after checking that the global really holds them now).
+func loadUnits(path string, dd *vh.Dedup, res *vh.Result) (vecs []*convVec, units []unit, err error) {
+	err = vh.ForEachVector(path, func(_ int, raw []byte) error {
+		v := &convVec{}
+		if err := json.Unmarshal(raw, v); err != nil {
+			return err
+		}
+		vecs = append(vecs, v)
+		if dd != nil {
+			dd.Add(raw)
+		}
+		if res != nil && len(vecs)%1499 == 1 {
+			var s any
+			json.Unmarshal(raw, &s)
+			res.Sample(s)
+		}
+		units = append(units, unit{v: v})
+		for _, name := range v.Globals {
+			g := findGlobal(name)
+			if g == nil {
+				return fmt.Errorf("the specification names an unknown std global %q", name)
+			}
+			if !slices.Equal([]byte(*g.ip), v.IP.bytes()) {
+				return fmt.Errorf("net.%s holds %v at start-up, the specification says %v", name, []byte(*g.ip), v.IP.bytes())
+			}
+			units = append(units, unit{v: v, global: g})
+		}
+		return nil
+	})
+	return vecs, units, err
+}
+
+// replayConv replays every unit twice, in file order and in a seeded random
+// order, on the same process state: every result must be the one the
+// specification requires (history independence: the two orders give the same
+// results), no call may modify its arguments, and the std globals must hold
+// their start-up bytes after every call.
 func replayConv(args []string) error {
 	if len(args) != 2 {
 		return fmt.Errorf("usage: replay-conv <vectors> <result>")
@@ -367,109 +680,134 @@ func replayConv(args []string) error {
 	if err != nil {
 		return err
 	}
-	n, calls, probes, compared := 0, 0, 0, 0
 	dd := vh.NewDedup()
-	err = vh.ForEachVector(args[0], func(_ int, raw []byte) error {
-		var v convVec
-		if err := json.Unmarshal(raw, &v); err != nil {
-			return err
-		}
-		n++
-		dd.Add(raw)
-		if n%1499 == 1 {
-			var s any
-			json.Unmarshal(raw, &s)
-			res.Sample(s)
-		}
-		ip := v.IP.bytes()
-		switch v.T {
-		case "ip":
-			for _, c := range []struct {
-				fam  string
-				want addrRes
-			}{{"v4", v.R4}, {"v6", v.R6}, {"n", v.RN}} {
-				calls++
-				got, pv := callIPToAddr(ip, c.fam)
-				switch {
-				case pv != nil:
-					res.Mismatch(keyIP(ip, c.fam), fmt.Sprintf("panic: %v", pv), v)
-				case !sameAddrRes(got, c.want):
-					res.Mismatch(keyIP(ip, c.fam), fmt.Sprintf("returned %+v, the specification requires %+v", got, c.want), v)
-				}
-			}
-		case "net":
-			mask := v.Mask.bytes()
-			for _, c := range []struct {
-				fam  string
-				want prefixRes
-				cmp  cmpFlags
-			}{{"v4", v.P4, v.C4}, {"v6", v.P6, v.C6}, {"n", v.PN, v.CN}} {
-				calls++
-				got, p, ref, pv := callIPNetToPrefix(ip, mask, c.fam)
-				key := keyNet(ip, mask, c.fam)
-				switch {
-				case pv != nil:
-					res.Mismatch(key, fmt.Sprintf("panic: %v", pv), v)
-					continue
-				case c.cmp.Must == "reject" && got.OK:
-					res.Mismatch(key, fmt.Sprintf("returned %v without an error; the subnet must be rejected "+
-						"(mask nil, empty or not a contiguous run of ones, or IP not an address of the family)", p), v)
-					continue
-				case c.cmp.Must == "accept" && !meetsPrefix(got, c.want):
-					res.Mismatch(key, fmt.Sprintf("returned %+v, the specification requires %+v (host bits free)", got, c.want), v)
-					continue
-				case c.cmp.Must != "accept" && c.cmp.Must != "reject" && c.cmp.Must != "free":
-					return fmt.Errorf("bad demand %q", c.cmp.Must)
-				}
-				if c.cmp.Must != "accept" || !c.cmp.Cmp {
-					continue
-				}
-				compared++
-				for _, x := range boundaryProbes(p.Addr().AsSlice(), p.Bits()) {
-					if c.cmp.Skip4in6 && len(x) == 16 && netip.AddrFrom16([16]byte(x)).Is4In6() {
-						continue
-					}
-					probes++
-					o := observeProbe(p, ref, x)
-					if o.PC != o.NC {
-						a, _ := netip.AddrFromSlice(x)
-						res.Mismatch(key, fmt.Sprintf("the prefix %v and the *net.IPNet disagree about %v: Prefix.Contains=%v IPNet.Contains=%v",
-							p, a, o.PC, o.NC), map[string]any{"vector": v, "probe": o})
-						break
-					}
-				}
-			}
-		case "na":
-			calls++
-			got, pv, err := callNetAddr(v.Kind, ip, v.Zone, v.Port)
-			if err != nil {
-				return err
-			}
-			key := fmt.Sprintf("NetAddrToAddrPort(%s{IP:%s, Zone:%q, Port:%d})", v.Kind, goBytes("net.IP", ip), v.Zone, v.Port)
-			switch {
-			case pv != nil:
-				res.Mismatch(key, fmt.Sprintf("panic: %v", pv), v)
-			case v.Must == "accept" && !sameAPRes(got, v.AP):
-				res.Mismatch(key, fmt.Sprintf("returned %+v, the specification requires %+v", got, v.AP), v)
-			case v.Must == "reject" && got.OK:
-				res.Mismatch(key, fmt.Sprintf("returned the valid %+v for something that is not an address", got), v)
-			case v.Must == "free" && got.OK && v.Kind == "ip":
-				if a, ok := netip.AddrFromSlice(ip); !ok || !slices.Equal(got.B, ints(a.Unmap().AsSlice())) {
-					res.Mismatch(key, fmt.Sprintf("returned %+v: the address was changed", got), v)
-				}
-			case v.Must != "accept" && v.Must != "reject" && v.Must != "free":
-				return fmt.Errorf("bad demand %q", v.Must)
-			}
-		default:
-			return fmt.Errorf("unknown vector type %q", v.T)
-		}
-		return nil
-	})
+	watch := newGlobalWatch()
+	vecs, units, err := loadUnits(args[0], dd, res)
 	if err != nil {
 		return err
 	}
-	return res.Close(map[string]any{"replayed": n, "calls": calls, "membership_probes": probes,
-		"subnets_compared": compared, "distinct_nontrivial": dd.N()})
+	var st judgeStats
+	first := make([]outcome, len(units))
+	globalUnits, orderDiffs := 0, 0
+	for i, u := range units {
+		if u.global != nil {
+			globalUnits++
+		}
+		o, err := exec(u, true, func(k int) { watch.check(res, u.key(k), "") })
+		if err != nil {
+			return err
+		}
+		if err := judge(res, u, &o, "", true, &st); err != nil {
+			return err
+		}
+		o.pfx, o.ref = [3]netip.Prefix{}, [3]*net.IPNet{}
+		first[i] = o
+	}
+	order := vh.Rand(121).Perm(len(units))
+	for _, i := range order {
+		u := units[i]
+		o, err := exec(u, false, func(k int) { watch.check(res, u.key(k), " [second order]") })
+		if err != nil {
+			return err
+		}
+		if err := judge(res, u, &o, " [replayed in a second order]", false, &st); err != nil {
+			return err
+		}
+		if !sameOutcome(&first[i], &o) {
+			orderDiffs++
+			res.Mismatch(u.key(0)+" depends on earlier calls",
+				fmt.Sprintf("the same calls on the same input returned %+v in file order and %+v in a shuffled order",
+					compact(&first[i], u), compact(&o, u)), u.v)
+		}
+	}
+	watch.restore()
+	return res.Close(map[string]any{"replayed": len(vecs), "units": len(units), "global_units": globalUnits,
+		"calls": st.calls, "membership_probes": st.probes, "subnets_compared": st.compared,
+		"order_differences": orderDiffs, "distinct_nontrivial": dd.N()})
+}
+
+func compact(o *outcome, u unit) any {
+	switch u.v.T {
+	case "ip":
+		return o.A
+	case "net":
+		return o.P
+	}
+	return o.AP
+}
+
+// stressConv runs the units in several goroutines at once, every goroutine
+// in its own order, with private copies of all inputs except the std globals,
+// which all goroutines share (reading them concurrently is legal).  Nothing
+// is checked while the goroutines run; the per-goroutine outcomes are judged
+// after they have all finished.  Meant to be built with -race.
+func stressConv(args []string) error {
+	if len(args) != 4 {
+		return fmt.Errorf("usage: stress-conv <vectors> <result> <goroutines> <rounds>")
+	}
+	ng, err1 := strconv.Atoi(args[2])
+	rounds, err2 := strconv.Atoi(args[3])
+	if err1 != nil || err2 != nil || ng < 2 || rounds < 1 {
+		return fmt.Errorf("bad numbers")
+	}
+	res, err := vh.NewResult(args[1])
+	if err != nil {
+		return err
+	}
+	watch := newGlobalWatch()
+	_, all, err := loadUnits(args[0], nil, nil)
+	if err != nil {
+		return err
+	}
+	// All units on globals, all IPToAddr / NetAddrToAddrPort units, every 7th subnet unit.
+	var units []unit
+	for i, u := range all {
+		if u.global != nil || u.v.T != "net" || i%7 == 0 {
+			units = append(units, u)
+		}
+	}
+	var st judgeStats
+	execs := 0
+	for r := 0; r < rounds; r++ {
+		outs := make([][]outcome, ng)
+		errs := make([]error, ng)
+		var wg sync.WaitGroup
+		start := make(chan struct{})
+		for g := 0; g < ng; g++ {
+			outs[g] = make([]outcome, len(units))
+			order := vh.Rand(uint64(1000 + 100*r + g)).Perm(len(units))
+			wg.Add(1)
+			go func(g int) {
+				defer wg.Done()
+				<-start
+				for _, i := range order {
+					o, err := exec(units[i], false, nil)
+					if err != nil {
+						errs[g] = err
+						return
+					}
+					outs[g][i] = o
+				}
+			}(g)
+		}
+		close(start)
+		wg.Wait()
+		for g := 0; g < ng; g++ {
+			if errs[g] != nil {
+				return errs[g]
+			}
+			for i := range units {
+				execs++
+				if err := judge(res, units[i], &outs[g][i], " [concurrent phase]", false, &st); err != nil {
+					return err
+				}
+			}
+		}
+		watch.check(res, fmt.Sprintf("concurrent conversions (round %d)", r+1), " [concurrent phase]")
+	}
+	watch.restore()
+	return res.Close(map[string]any{"stress_units": len(units), "goroutines": ng, "rounds": rounds,
+		"stress_executions": execs, "stress_calls": st.calls})
 }
 
 // meetsPrefix: got is an accepted prefix with want's family, length and
@@ -782,14 +1120,36 @@ func record(args []string) error {
 		dd.Add(b)
 		tr.Emit(ev)
 	}
+	// One input in eight is a std global itself, passed as is after whatever
+	// conversions ran before; it is logged with the bytes it held at start-up.
+	watch := newGlobalWatch()
+	pick := func() input {
+		if g.intn(8) == 0 {
+			sg := &stdGlobals[g.intn(len(stdGlobals))]
+			counts["std_global_inputs"]++
+			return input{b: watch.snap[sg.name], global: sg}
+		}
+		return private(g.ip())
+	}
+	modified := func(key string, changed bool) {
+		if changed {
+			res.Mismatch(key+" modified its argument", "the bytes of the net.IP / net.IPMask passed in differ after the call", nil)
+		}
+	}
 	for i := 0; i < n; i++ {
+		if i%500 == 499 || i == n-1 {
+			// What the std globals hold now; TLC compares with StdGlobals.
+			tr.Emit(map[string]any{"t": "globals", "vals": watch.values()})
+		}
 		switch r := g.intn(10); {
 		case r < 3: // IPToAddr*
-			ip := g.ip()
-			ev := map[string]any{"t": "ip", "ip": mkSeq(ip)}
+			in := pick()
+			ip := in
+			ev := map[string]any{"t": "ip", "ip": mkSeq(in.b)}
 			bad := false
 			for _, fam := range []string{"v4", "v6", "n"} {
-				got, pv := callIPToAddr(ip, fam)
+				got, pv, ch := callIPToAddr(ip, fam)
+				modified(keyIP(ip, fam), ch)
 				if pv != nil {
 					res.Mismatch(keyIP(ip, fam), fmt.Sprintf("panic: %v", pv), nil)
 					bad = true
@@ -801,12 +1161,13 @@ func record(args []string) error {
 				emit(ev)
 			}
 		case r < 6: // IPNetToPrefix*
-			ip := g.ip()
-			mask := g.mask(len(ip))
-			ev := netEvent{T: "net", IP: mkSeq(ip), Mask: mkSeq(mask)}
+			ip := pick()
+			mask := g.mask(len(ip.b))
+			ev := netEvent{T: "net", IP: mkSeq(ip.b), Mask: mkSeq(mask)}
 			bad := false
 			for _, fam := range []string{"v4", "v6", "n"} {
-				got, p, ref, pv := callIPNetToPrefix(ip, mask, fam)
+				got, p, ref, pv, ch := callIPNetToPrefix(ip, mask, fam)
+				modified(keyNet(ip, mask, fam), ch)
 				if pv != nil {
 					res.Mismatch(keyNet(ip, mask, fam), fmt.Sprintf("panic: %v", pv), nil)
 					bad = true
@@ -841,23 +1202,24 @@ func record(args []string) error {
 		case r < 8: // NetAddrToAddrPort
 			kinds := []string{"tcp", "udp", "apcustom", "tcp", "udp", "ip", "custom", "niltcp", "niludp"}
 			kind := kinds[g.intn(len(kinds))]
-			ip := g.ip()
+			ip := pick()
 			zone := ""
 			if g.intn(3) == 0 {
 				zone = zoneNames[1+g.intn(len(zoneNames)-1)]
 			}
 			port := []int{0, 1, 53, 443, 8080, 65535, g.intn(65536)}[g.intn(7)]
-			got, pv, err := callNetAddr(kind, ip, zone, port)
+			got, pv, ch, err := callNetAddr(kind, ip, zone, port)
 			if err != nil {
 				return err
 			}
+			nkey := fmt.Sprintf("NetAddrToAddrPort(%s{IP:%s, Zone:%q, Port:%d})", kind, ip, zone, port)
+			modified(nkey, ch)
 			if pv != nil {
-				res.Mismatch(fmt.Sprintf("NetAddrToAddrPort(%s{IP:%s, Zone:%q, Port:%d})", kind, goBytes("net.IP", ip), zone, port),
-					fmt.Sprintf("panic: %v", pv), nil)
+				res.Mismatch(nkey, fmt.Sprintf("panic: %v", pv), nil)
 				continue
 			}
 			counts["na"]++
-			emit(map[string]any{"t": "na", "kind": kind, "ip": mkSeq(ip), "zone": zone, "port": port, "r": got})
+			emit(map[string]any{"t": "na", "kind": kind, "ip": mkSeq(ip.b), "zone": zone, "port": port, "r": got})
 		default: // sorting
 			pool := make([]netip.Addr, 2+g.intn(8))
 			for k := range pool {
@@ -920,6 +1282,7 @@ func record(args []string) error {
 			}
 		}
 	}
+	watch.restore()
 	if tr.N > 0 {
 		res.Sample(map[string]any{"recorded_events": tr.N, "by_kind": counts})
 	}
